@@ -889,3 +889,91 @@ inductive NextArm where
                    "def remapApplies (b : BinOp) : Bool :=\n  " + T.lean_list("." + lower(o) for o in applies) + ".contains b\n")
         out.append(T.footer("BinopTyping"))
         return "".join(out)
+
+    @gen("InstTable")
+    def inst_table():
+        """How an existing instantiation of a template is found again: the key comparison of
+        `FunctionRegistry::find_instantiation` and the map of `ensure_struct_template`."""
+        fns = T.src("ir/src/ir_functions.rs")
+        tys = T.src("ir/src/ir_types.rs")
+        scopes = T.src("typer/src/typer/scopes.rs")
+        fi = normws(impl_fn_body(fns, "FunctionRegistry", "find_instantiation"))
+        head = ("for i in 0..self.get_function_count() { let other_id = FunctionId(i); "
+                "if let Some(instantiation_data) = self.get_template_instantiation_data(other_id) "
+                "&& instantiation_data.parent_id == id && ")
+        tail = " { return Some(other_id); } } None"
+        if not (fi.startswith(head) and fi.endswith(tail)):
+            raise ExtractError(f"find_instantiation: the search loop has an unknown shape: {fi[:400]!r}")
+        cond = fi[len(head):-len(tail)].strip()
+        if cond == "instantiation_data.template_args == template_args":
+            mode = "exact"
+        else:
+            # element-wise comparison with a method of TypeOrConstant: read that method
+            cm = re.fullmatch(r"instantiation_data\.template_args\.len\(\) == template_args\.len\(\) && instantiation_data \.template_args "
+                              r"\.iter\(\) \.zip\(template_args\) \.all\(\|\(lhs, rhs\)\| lhs\.(\w+)\(rhs\)\)", cond)
+            if not cm:
+                raise ExtractError(f"find_instantiation: the comparison of the template arguments has an unknown shape: {cond[:300]!r}")
+            mb = normws(impl_fn_body(tys, "TypeOrConstant", cm.group(1)))
+            mm = re.fullmatch(r"match \(self, other\) \{ \(TypeOrConstant::Type\(lhs\), TypeOrConstant::Type\(rhs\)\) => lhs == rhs, "
+                              r"\(TypeOrConstant::Constant\(lhs\), TypeOrConstant::Constant\(rhs\)\) => \{? ?(.*?),? ?\}?,? _ => false,? \}", mb)
+            if not mm:
+                raise ExtractError(f"TypeOrConstant::{cm.group(1)} has an unknown shape: {mb[:300]!r}")
+            ce = mm.group(1).strip().rstrip(",").strip()
+            if ce == "lhs == rhs":
+                mode = "exact"
+            elif ce == "lhs.to_uint64() == rhs.to_uint64()":
+                mode = "byToUint64"
+            else:
+                raise ExtractError(f"TypeOrConstant::{cm.group(1)}: constants are compared in an unknown way: {ce!r}")
+        # RestrictedConstant::to_uint64 is Constant::to_uint64 of the unrestricted constant (Gen.PosTable has its arms)
+        r2u = normws(impl_fn_body(tys, "RestrictedConstant", "to_uint64"))
+        if r2u != "self.clone().unrestrict().to_uint64()":
+            raise ExtractError(f"RestrictedConstant::to_uint64 has an unknown shape: {r2u!r}")
+        # `==` on the argument list is the derived one: kind AND value
+        derived = True
+        for name in ("RestrictedConstant", "TypeOrConstant"):
+            dm = re.search(r"#\[derive\(([^)]*)\)\]\s*pub enum " + name + r"\b", tys)
+            if not dm or not {"PartialEq", "Eq", "Hash"} <= {x.strip() for x in dm.group(1).split(",")}:
+                derived = False
+            if re.search(r"impl\s+(?:PartialEq|Eq|Hash|std::hash::Hash|core::hash::Hash)\b[^{;]*\bfor\s+" + name + r"\b", tys):
+                derived = False
+        rc = [v for v, _ in enum_variants(tys, "RestrictedConstant")]
+        if rc != ["Bool", "IntLiteral", "Int32", "UInt32", "Int64", "UInt64", "Enum"]:
+            raise ExtractError(f"RestrictedConstant has unknown variants: {rc!r}")
+        # struct templates: a HashMap keyed by the argument list, looked up with the provided arguments, then (after the
+        # defaults were filled in) with the complete list; the instantiation is registered under the provided arguments
+        sc = normws(scopes)
+        es = normws(fn_body(scopes, "ensure_struct_template"))
+        ins = normws(fn_body(scopes, "instantiate_struct_template"))
+        struct_ok = (
+            re.search(r"struct StructTemplateData \{ scope: ScopeIndex, instantiations: HashMap<Vec<ir::TypeOrConstant>, ir::StructId>, \}", sc) is not None
+            and "if let Some(id) = struct_template_data.instantiations.get(template_args) {" in es
+            and re.search(r"struct_template_data \.instantiations \.insert\(template_args\.to_vec\(\), sid\);", es) is not None
+            and es.count("instantiations") == 2
+            and ins.endswith("match struct_template_data.instantiations.get(&final_params) { Some(sid) => Ok(*sid), "
+                             "None => build_struct_from_template(ast, inst_scope, self), }")
+            and ins.count("instantiations") == 1
+            and ins.count("final_params.push(") == 2
+            and "final_params.push(ir::TypeOrConstant::Constant(value.clone()));" in ins
+            and "self.register_valuedef(name.clone(), value.clone().unrestrict())?" in ins
+        )
+        if not struct_ok:
+            raise ExtractError("ensure_struct_template / instantiate_struct_template: the instantiation map is used in an unknown way")
+        # both callers hand the evaluated arguments (locations stripped) to find_instantiation
+        callers = len(re.findall(r"\.find_instantiation\(id, &template_args_no_loc\)", sc))
+        if callers != 2 or sc.count("find_instantiation") != 2:
+            raise ExtractError("scopes.rs: find_instantiation is called in an unknown way")
+        out = [T.header("InstTable", ["ir/src/ir_functions.rs", "ir/src/ir_types.rs", "typer/src/typer/scopes.rs"])]
+        out.append("/-- how `FunctionRegistry::find_instantiation` compares a recorded template argument with a requested one -/\n"
+                   "inductive KeyMode where\n"
+                   "  /-- `instantiation_data.template_args == template_args`: the derived equality, kind and value -/\n  | exact\n"
+                   "  /-- value arguments through `to_uint64() == to_uint64()` (`None == None` included), types by `==` -/\n  | byToUint64\n"
+                   "  deriving DecidableEq, Repr, Inhabited\n\n")
+        out.append(f"/-- the comparison found in `find_instantiation` (next to `parent_id == id`; first match in id order wins) -/\n"
+                   f"def fnKeyMode : KeyMode := .{mode}\n\n")
+        out.append("/-- `RestrictedConstant` and `TypeOrConstant` derive `PartialEq, Eq, Hash` and have no hand-written instance -/\n"
+                   f"def argEqDerived : Bool := {'true' if derived else 'false'}\n\n")
+        out.append("/-- struct templates: `HashMap<Vec<TypeOrConstant>, StructId>`; `get(provided)`, then `get(&final_params)`, insert under the provided list -/\n"
+                   "def structMapKeyedByArgs : Bool := true\n")
+        out.append(T.footer("InstTable"))
+        return "".join(out)
